@@ -158,7 +158,7 @@ fn run_case<K: KeyT>(case_no: u64, header: &str, hasher: HashKind, lines: &[Stri
     }
     // leak / bad-free check: measured on a second and third run of the same case, so that one-time
     // lazy initialisations inside std or the dependencies are not mistaken for a leak
-    if case_no % 4 == 0 || lines.len() < 400 {
+    if std::env::var("SEQ_NO_LEAK_RERUN").is_err() && (case_no % 4 == 0 || lines.len() < 400) {
         let (_, _, d1) = run_case_once::<K>(case_no, header, hasher, lines, None, false);
         if d1 != 0 {
             let (_, _, d2) = run_case_once::<K>(case_no, header, hasher, lines, None, false);
@@ -309,6 +309,48 @@ fn main() {
         Some("file") => {
             let prefix = &args[3];
             std::fs::copy(&args[2], format!("{prefix}.ops")).unwrap();
+            supervise(prefix);
+        }
+        Some("big") => {
+            // oracle-only stream of very long strings (sizes around and beyond any plausible internal
+            // threshold, relative to the current block capacity): `seq big <tier> <seed> <prefix>`
+            let tier = &args[2];
+            let seed: u64 = args[3].parse().unwrap();
+            let prefix = &args[4];
+            let mut rng = harness::Rng::new(seed ^ 0xb16);
+            let mut lines: Vec<String> = Vec::new();
+            let mut n = 0u64;
+            let caps: Vec<usize> = if tier == "thorough" { vec![4096, 1 << 16, 1 << 20, 3 << 20, 4 << 20, 5 << 20, (1 << 22) + 1] } else { vec![4096, 5 << 20] };
+            for kind in ["rodeo", "threaded"] {
+                for &cap0 in &caps {
+                    lines.push("case spur fnv1a".into());
+                    lines.push("pool".into());
+                    lines.push(format!("new 0 {kind} 0 {cap0} max"));
+                    let mut cap = cap0;
+                    let mut sizes: Vec<usize> = Vec::new();
+                    // grow by doubling up to 8 MiB blocks, probing around the current capacity on the way
+                    while cap <= (8 << 20) {
+                        sizes.extend([cap + 1, cap * 2 - 1, cap * 2, cap / 2 + 1]);
+                        if rng.chance(1, 2) {
+                            sizes.push(cap + 1 + rng.below(cap as u64) as usize);
+                        }
+                        cap *= 2;
+                    }
+                    sizes.extend([(4 << 20) + 1, 5 << 20, 6 << 20, (8 << 20) - 1, 9 << 20]);
+                    for sz in sizes {
+                        n += 1;
+                        lines.push(format!("internRep 0 {} {sz}", harness::hex(format!("#{n}#").as_bytes())));
+                        if n % 5 == 0 {
+                            lines.push("audit 0".into());
+                        }
+                    }
+                    lines.push("audit 0".into());
+                    lines.push("len 0".into());
+                }
+            }
+            std::fs::write(format!("{prefix}.ops"), lines.join("\n") + "\n").unwrap();
+            // the leak re-runs would triple the cost; the block audit and the content oracles are what matters here
+            std::env::set_var("SEQ_NO_LEAK_RERUN", "1");
             supervise(prefix);
         }
         Some("run") => {
